@@ -170,6 +170,67 @@ def fifo_queue(tree, rep, rule, prog, cname, attr, append_out, drain_out):
               site(fn, ci.file), key="%s:%s.%s:drain" % (rule, cname, attr))
 
 
+def observer_handoff_atomic(tree, rep, rule):
+    """SequenceObserver: whoever takes a waiting Deferred takes the oldest result in the same step (and the other way round).
+    A result that is taken later (inside a lambda / another function run by the eventual queue) can meanwhile be handed to
+    another caller: reordering, or a Deferred that never fires."""
+    OBS = "src/wormhole/observer.py"
+    for meth in ("fire", "when_next_event"):
+        fn = tree.func(OBS, "SequenceObserver", meth)
+        takes = []
+        for n in ast.walk(fn):
+            if isinstance(n, ast.Call) and isinstance(n.func, ast.Attribute) and n.func.attr in ("pop", "popleft") \
+                    and is_self_attr(n.func.value) and n.func.value.attr in ("_results", "_observers"):
+                takes.append(n)
+        lazy = []
+        for t in takes:
+            p_ = getattr(t, "_parent", None)
+            while p_ is not None and p_ is not fn:
+                if isinstance(p_, (ast.Lambda, ast.FunctionDef, ast.AsyncFunctionDef)):
+                    lazy.append(t)
+                    break
+                p_ = getattr(p_, "_parent", None)
+        rep.check(rule, "SequenceObserver.%s takes results / waiting Deferreds synchronously (%d takes, none deferred)" % (meth, len(takes)),
+                  bool(takes) and not lazy, site(lazy[0] if lazy else fn, OBS), key="%s:SequenceObserver.%s:atomic-handoff" % (rule, meth),
+                  what="SequenceObserver.%s defers taking a result / observer to a later turn: another get_message() can take it first "
+                       "(messages out of order, or a Deferred that never fires)" % meth)
+    own, foreign = class_writers(tree, "SequenceObserver", "_results")
+    for w in own:
+        if w.kind in ("call:pop", "call:popleft"):
+            rep.check(rule, "SequenceObserver._results is taken from only in fire / when_next_event (here %s)" % w.fn,
+                      w.fn in ("fire", "when_next_event"), w.site, key="%s:SequenceObserver._results:taker:%s" % (rule, w.fn))
+
+
+def eventual_turn_isolates_calls(tree, rep, rule):
+    """EventualQueue._turn: a queued call that raises is logged and does NOT drop the calls queued behind it (one of which can be
+    the delivery of a message already taken out of the observer's buffer)"""
+    EV = "src/wormhole/eventual.py"
+    fn = tree.func(EV, "EventualQueue", "_turn")
+    loops = [n for n in ast.walk(fn) if isinstance(n, (ast.For, ast.While))]
+    calls = [c for c in ast.walk(fn) if isinstance(c, ast.Call) and isinstance(c.func, ast.Name) and any(
+        isinstance(a, ast.Starred) for a in c.args)]
+    ok = len(loops) >= 1 and len(calls) == 1
+    if ok:
+        c = calls[0]
+        # walking up from the call: a Try (catching everything) is met before the loop
+        p_ = getattr(c, "_parent", None)
+        seen_try = False
+        inside_loop = False
+        while p_ is not None and p_ is not fn:
+            if isinstance(p_, ast.Try) and any(h.type is None or dotted(h.type) in ("Exception", "BaseException") for h in p_.handlers) \
+                    and any(c is x for b in p_.body for x in ast.walk(b)):
+                seen_try = True
+            if isinstance(p_, (ast.For, ast.While)):
+                inside_loop = True
+                break
+            p_ = getattr(p_, "_parent", None)
+        ok = inside_loop and seen_try
+    rep.check(rule, "EventualQueue._turn runs every queued call inside its own try/except within the loop", ok, site(fn, EV),
+              key="%s:EventualQueue._turn:isolation" % rule,
+              what="an exception in one eventual call drops the calls queued behind it in the same turn (a message already taken from the "
+                   "observer is never delivered)")
+
+
 def r3(tree, prog, rep):
     fifo_queue(tree, rep, "C03.R3", prog, "Send", "_queue", "queue", "drain")
     fifo_queue(tree, rep, "C03.R3", prog, "Order", "_queue", "queue", "drain")
@@ -188,6 +249,8 @@ def r3(tree, prog, rep):
                   what="get_message() results are not handed out first-in-first-out (%s on a %s)" % (w.kind, "deque" if is_deque else "list"))
     if len(own) < 3:
         raise AnalysisError("SequenceObserver._results has fewer writers than expected")
+    observer_handoff_atomic(tree, rep, "C03.R3")
+    eventual_turn_isolates_calls(tree, rep, "C03.R3")
     own, foreign = class_writers(tree, "SequenceObserver", "_observers")
     for w in own + foreign:
         ok = w in own and ((w.kind == "assign" and is_empty_ctor(w.value, ("list", "deque"))) or w.kind == "call:append"
